@@ -115,6 +115,49 @@ def sort_shape_cases(tier):
                         yield env, f, "sortshape:%s:%s:%s:%s" % (leaf, "-".join(ch), fil, c)
 
 
+def ground_factor_cases(tier):
+    """NON-VARIABLE-FACTOR family: factors / operands of Times, Div and Pow that are non-ground only through applied
+    function symbols (f(1), f(f(0)) + 1, ite(true, f(1), 2), a constant array holding f(1)), or ground without being a
+    literal (1 + 2, ite(1 < 2, 3, 4), a select on a constant array, str.len of a literal, bv2nat of a literal), next to
+    literals and variables, in both orders, with no other non-linearity anywhere in the formula."""
+    from pysmt.typing import BOOL, INT, REAL, FunctionType
+    for sort in ("Int", "Real"):
+        env = Environment()
+        m = env.formula_manager
+        T = INT if sort == "Int" else REAL
+
+        def num(k, T=T, m=m):
+            return m.Int(k) if T.is_int_type() else m.Real(k)
+        f = m.Symbol("f", FunctionType(T, [T]))
+        h = m.Symbol("h", FunctionType(T, [T, BOOL]))
+        x, y = m.Symbol("x", T), m.Symbol("y", T)
+        f1 = m.Function(f, [num(1)])
+        kinds = [
+            ("lit", num(3)), ("lit-arith", m.Plus(num(2), num(1))), ("var", x), ("var-sum", m.Plus(y, num(1))),
+            ("uf-lit", f1), ("uf-uf", m.Function(f, [m.Function(f, [num(0)])])), ("uf-sum", m.Plus(m.Function(f, [m.Function(f, [num(0)])]), num(1))),
+            ("uf-2", m.Function(h, [num(2), m.TRUE()])), ("uf-minus", m.Minus(num(0), f1)), ("uf-ite", m.Ite(m.TRUE(), f1, num(2))),
+            ("uf-ite-cond", m.Ite(m.LT(f1, num(2)), num(3), num(4))), ("uf-constarr", m.Select(m.Array(T, f1), num(2))),
+            ("uf-of-var", m.Function(f, [x])),
+            ("ground-ite", m.Ite(m.LT(num(1), num(2)), num(3), num(4))), ("ground-select", m.Select(m.Array(T, num(5)), num(1))),
+        ]
+        if sort == "Int":
+            kinds += [("ground-strlen", m.StrLength(m.String("ab"))), ("ground-bv2nat", m.BVToNatural(m.BV(3, 8)))]
+        else:
+            fi = m.Symbol("fi", FunctionType(INT, [INT]))
+            kinds += [("uf-toreal", m.ToReal(m.Function(fi, [m.Int(1)]))), ("ground-toreal", m.ToReal(m.Plus(m.Int(1), m.Int(2))))]
+        for (ka, a), (kb, b) in ((p, q) for p in kinds for q in kinds):
+            yield env, m.Equals(m.Times(a, b), num(0)), "factors:%s:times:%s:%s" % (sort, ka, kb)
+            if not (b.is_constant() and b.constant_value() == 0):
+                yield env, m.LE(m.Div(a, b), num(0)), "factors:%s:div:%s:%s" % (sort, ka, kb)
+        for ka, a in kinds:
+            yield env, m.Equals(m.Pow(a, num(2)), m.Real(0)), "factors:%s:pow:%s" % (sort, ka)
+            # three factors, one of them a literal; a product below a sum; a product inside an argument of f
+            for kb, b in kinds[2:]:
+                yield env, m.Equals(m.Times(num(2), a, b), num(0)), "factors:%s:times3:%s:%s" % (sort, ka, kb)
+                yield env, m.LE(m.Plus(m.Times(a, b), num(1)), num(7)), "factors:%s:sum-of-times:%s:%s" % (sort, ka, kb)
+            yield env, m.Equals(m.Function(f, [m.Times(a, f1)]), num(0)), "factors:%s:times-under-uf:%s" % (sort, ka)
+
+
 def run(chk, rnd, tier):
     env0 = Environment()
     n = 600 if tier == "quick" else 6000
@@ -128,9 +171,12 @@ def run(chk, rnd, tier):
             yield env0, g.gen(rnd.choice(g.types), rnd.randint(1, 5)), "random"
         for x in sort_shape_cases(tier):
             yield x
-    nshape = 0
+        for x in ground_factor_cases(tier):
+            yield x
+    nshape = nfactor = 0
     for env, f, fam in inputs():
-        nshape += fam != "random"
+        nshape += fam.startswith("sortshape")
+        nfactor += fam.startswith("factors")
         try:
             th = env.theoryo.get_theory(f)
             exp = "(Some (%s, th_dec %d%%N))" % ("true" if env.qfo.is_qf(f) else "false", code(th))
@@ -167,6 +213,7 @@ def run(chk, rnd, tier):
                               key="detect:%s:%s" % (lg if lg is not None else "no-logic", ",".join(sorted(missing))))
                 break
     chk.cov.setdefault("correspondence", {})["detection_sort_shape_cases"] = nshape
+    chk.cov["correspondence"]["detection_non_variable_factor_cases"] = nfactor
     chk.sample({"kind": "detection", "formula": meta[0].serialize()[:300]})
     ok_def = ("Definition th_eqb (a b : theory) := t_eq a b.\n"
               "Definition ok (c : term * option (bool * theory)) : bool :=\n"
